@@ -326,6 +326,31 @@ def r14_6(chk, facts):
                 chk.ok('R14.6', U.site(fn, 'member name appended#%d' % k), {'line': c.get('l'), 'via': nm})
     chk.require(n >= 3, 'R14.6: only %d member-name insertions found in flatten_/from_diff' % n)
 
+# cross-calls between the public jsonpointer operations that are intended (confirmed by reading)
+DELEGATION_EXEMPT = {('contains', 'get'): 'contains() is "get() reports no error"'}
+
+def r14_7(chk, facts):
+    """The convenience overloads of a jsonpointer operation end in the worker of the same operation."""
+    chk.rule('R14.7', 'overload delegation: each overload of get / add / add_if_absent / remove / replace (string or pointer location, throwing or '
+                      'error_code, with or without create_if_missing) that forwards to another public jsonpointer operation forwards to the one '
+                      'of its own name; an add_if_absent overload that lands in add() overwrites', floor=20)
+    NAMES = {'get', 'contains', 'add', 'add_if_absent', 'remove', 'replace', 'flatten', 'unflatten'}
+    n = 0; seen = set()
+    for f in facts.functions:
+        if not f['file'].endswith('jsonpointer/jsonpointer.hpp') or f.get('body') is None or f['n'] not in NAMES or f.get('cls') or f.get('dep'): continue
+        for c in A.calls_in(f['body'], no_lambda=True):
+            if c.get('k') != 'CallExpr' or A.callee_name(c) not in NAMES or 'jsonpointer::' not in (c.get('cq') or ''): continue
+            key = (f['file'], f['l'], c.get('l'))
+            if key in seen: continue
+            seen.add(key); n += 1
+            chk.analysed(f)
+            site = U.site(f, 'forwards to %s (overload at line %s)' % (A.callee_name(c), f['l']))
+            if A.callee_name(c) == f['n'] or (f['n'], A.callee_name(c)) in DELEGATION_EXEMPT: chk.ok('R14.7', site, None)
+            else:
+                chk.fail('R14.7', site, f['file'], c.get('l'), 'the overload of jsonpointer::%s at line %s forwards to jsonpointer::%s: callers of this overload get the other operation' % (
+                    f['n'], f['l'], A.callee_name(c)), None, f['q'])
+    chk.require(n >= 20, 'R14.7: only %d forwarding calls found among the jsonpointer overloads' % n)
+
 def run(chk, tier, only_rule=None):
     chk.explanation = EXPLANATION
     chk.not_decided = NOT_DECIDED
@@ -337,3 +362,6 @@ def run(chk, tier, only_rule=None):
     r14_4(chk, facts)
     r14_5(chk, facts)
     r14_6(chk, facts)
+    r14_7(chk, facts)
+    from . import c05
+    c05.r05_12(chk, tier, units=('core', 'patch'))     # object keys of wide-character documents are compared whole
